@@ -46,6 +46,9 @@ fn path_name() -> BoxedStrategy<String> {
         4 => gen::from_alphabet("abcdefghijklmnopqrstuvwxyz0123456789_/.", 1, 40),
         1 => Just("chara/equipment/e0038/texture/v01_c0201e0038_top_n.tex".to_string()),
         1 => gen::from_alphabet("aB_", 0, 3),
+        // path bytes outside ASCII (mod folders): how such a path itself decodes is not pinned by the statement,
+        // but the paths stored after it must still be found where they are
+        1 => gen::from_alphabet("abc/_.é日ßΩ", 1, 12),
     ]
     .boxed()
 }
@@ -103,8 +106,21 @@ fn prop_mtrl(m: &MtrlSpec, ctx: &Ctx) -> PResult {
         Some(x) => x,
         None => return fail("material-rejected", "from_existing returned None for a well-formed material"),
     };
-    ensure_eq!(&mat.shader_package_name, &m.shader_package, "shader-package-name", "shader package name");
-    ensure_eq!(&mat.texture_paths, &m.textures, "texture-paths", "texture paths");
+    if m.shader_package.is_ascii() {
+        ensure_eq!(&mat.shader_package_name, &m.shader_package, "shader-package-name", "shader package name");
+    }
+    // ASCII paths must be returned exactly; a path with bytes >= 0x80 only has to occupy its place in the list
+    ensure_eq!(mat.texture_paths.len(), m.textures.len(), "texture-paths", "number of texture paths");
+    for (i, (got, want)) in mat.texture_paths.iter().zip(&m.textures).enumerate() {
+        if want.is_ascii() {
+            ensure_eq!(got, want, "texture-paths", "texture path {} of {:?}", i, m.textures);
+        } else {
+            ctx.class("mtrl:non-ascii-path");
+            if i + 1 < m.textures.len() {
+                ctx.class("mtrl:non-ascii-path-followed-by-another");
+            }
+        }
+    }
     ensure_eq!(mat.shader_keys.iter().map(|k| (k.category, k.value)).collect::<Vec<_>>(), m.keys, "shader-keys", "shader keys");
     ensure_eq!(mat.constants.len(), m.constants.len(), "constant-count", "number of constants");
     for (i, (c, (id, vals))) in mat.constants.iter().zip(&m.constants).enumerate() {
